@@ -36,7 +36,7 @@ import (
 type MultiCase struct {
 	N     int
 	Edges [][2]int
-	Use   string // field | var
+	Use   string // field | var | field-xt | var-xt (-xt: package pa also has an external test package pa_test that imports every package of the module)
 	Inv   string // dots | list | rev | sub
 	Class string
 }
@@ -75,7 +75,7 @@ func (c MultiCase) Files() map[string]string {
 			fmt.Fprintf(&b, "import %s \"p/%s\"\n", "i"+pkgName(j), pkgName(j))
 		}
 		b.WriteString("\ntype T struct {\n\tX int\n\tS []string\n")
-		if c.Use == "field" {
+		if strings.HasPrefix(c.Use, "field") {
 			for k, j := range imps {
 				switch k % 3 {
 				case 0:
@@ -88,7 +88,7 @@ func (c MultiCase) Files() map[string]string {
 			}
 		}
 		b.WriteString("}\n\n")
-		if c.Use != "field" {
+		if !strings.HasPrefix(c.Use, "field") {
 			for _, j := range imps {
 				fmt.Fprintf(&b, "var _ i%s.T\n", pkgName(j))
 			}
@@ -96,6 +96,20 @@ func (c MultiCase) Files() map[string]string {
 		}
 		b.WriteString(calls[i%len(calls)] + "\n")
 		files[pkgName(i)+"/u.go"] = b.String()
+	}
+	if strings.HasSuffix(c.Use, "-xt") {
+		// the external test package of pa (a "created" package of the loader: dependenciesFirst puts those first,
+		// whatever they import — typically packages that import pa)
+		var b strings.Builder
+		b.WriteString("package pa_test\n\nimport (\n")
+		for i := 0; i < c.N; i++ {
+			fmt.Fprintf(&b, "\t\"p/%s\"\n", pkgName(i))
+		}
+		b.WriteString(")\n\n")
+		for i := 0; i < c.N; i++ {
+			fmt.Fprintf(&b, "var _ %s.T\n", pkgName(i))
+		}
+		files["pa/x_test.go"] = b.String()
 	}
 	return files
 }
@@ -184,6 +198,18 @@ func MultiCases(r *hx.Rand, tier string) []MultiCase {
 				} else {
 					pool = append(pool, c)
 				}
+			}
+		}
+	}
+	// with an external test package next to pa
+	for _, gi := range []int{1, 2, 3, 7, 11, 18} {
+		gr := graphs[gi]
+		for k, use := range []string{"field-xt", "var-xt"} {
+			c := MultiCase{N: gr.n, Edges: gr.e, Use: use, Inv: []string{"dots", "list", "rev"}[(gi+k)%3], Class: gr.name + "-xtest"}
+			if k == gi%2 {
+				must = append(must, c)
+			} else {
+				pool = append(pool, c)
 			}
 		}
 	}
